@@ -482,8 +482,30 @@ open Gengo.Loader
 
 /-- `I` does not look at package records and is kept by adding one package-scope object -/
 structure Keeps (w : World) (I : U → Prop) : Prop where
-  same : ∀ u u' : U, u'.objs = u.objs → u'.types = u.types → u'.builtinObjs = u.builtinObjs → declObjs u' = declObjs u → I u → I u'
+  same : ∀ u u' : U, u'.objs = u.objs → u'.types = u.types → u'.builtinObjs = u.builtinObjs → declObjs u' = declObjs u →
+    u'.funcs = u.funcs → u'.vars = u.vars → u'.consts = u.consts → I u → I u'
   add : ∀ (u : U) (ob : GObj) (u' : U), I u → addObj w.bt w.facts w.v2 w.fuel u ob = some u' → I u'
+
+theorem package_idx (u : U) (p : Str) : (u.package p).funcs = u.funcs ∧ (u.package p).vars = u.vars ∧ (u.package p).consts = u.consts := by
+  unfold U.package; split <;> exact ⟨rfl, rfl, rfl⟩
+
+theorem addImports_idx (u : U) (p : Str) (imps : List Str) :
+    (u.addImports p imps).funcs = u.funcs ∧ (u.addImports p imps).vars = u.vars ∧ (u.addImports p imps).consts = u.consts := by
+  unfold U.addImports
+  have key : ∀ (l : List Str) (x : U), (l.foldl (fun u i => u.package i) x).funcs = x.funcs ∧
+      (l.foldl (fun u i => u.package i) x).vars = x.vars ∧ (l.foldl (fun u i => u.package i) x).consts = x.consts := by
+    intro l
+    induction l with
+    | nil => intro x; exact ⟨rfl, rfl, rfl⟩
+    | cons i rest ih =>
+      intro x
+      simp only [List.foldl_cons]
+      obtain ⟨a, b, c⟩ := ih (x.package i)
+      obtain ⟨a', b', c'⟩ := package_idx x i
+      exact ⟨a.trans a', b.trans b', c.trans c'⟩
+  obtain ⟨a, b, c⟩ := key imps (u.package p)
+  obtain ⟨a', b', c'⟩ := package_idx u p
+  exact ⟨a.trans a', b.trans b', c.trans c'⟩
 
 theorem Keeps.addObjs {w : World} {I : U → Prop} (k : Keeps w I) :
     ∀ (obs : List GObj) (u u' : U), I u → addObjs w.bt w.facts w.v2 w.fuel u obs = some u' → I u' := by
@@ -503,7 +525,8 @@ theorem Keeps.scanPkg {w : World} {I : U → Prop} (k : Keeps w I) (u : U) (p : 
     (hf : scanPkg w.bt w.facts w.v2 w.fuel u p = some u') : I u' := by
   unfold Universe.scanPkg at hf
   obtain ⟨a, b, c, d⟩ := package_objs u p.path
-  have h1 := k.same u ((u.package p.path).setPkg p.path (fun r => { r with name := p.name })) a b c d h
+  obtain ⟨pf, pv, pc⟩ := package_idx u p.path
+  have h1 := k.same u ((u.package p.path).setPkg p.path (fun r => { r with name := p.name })) a b c d pf pv pc h
   cases ha : Universe.addObjs w.bt w.facts w.v2 w.fuel ((u.package p.path).setPkg p.path (fun r => { r with name := p.name })) p.scope with
   | none => simp [ha] at hf
   | some u2 =>
@@ -511,7 +534,8 @@ theorem Keeps.scanPkg {w : World} {I : U → Prop} (k : Keeps w I) (u : U) (p : 
     subst hf
     have h2 := k.addObjs _ _ _ h1 ha
     obtain ⟨a', b', c', d'⟩ := addImports_same u2 p.path (p.imports.mergeSort Str.le)
-    exact k.same _ _ a' b' c' d' h2
+    obtain ⟨af, av, ac⟩ := addImports_idx u2 p.path (p.imports.mergeSort Str.le)
+    exact k.same _ _ a' b' c' d' af av ac h2
 
 theorem Keeps.visitV2 {w : World} {I : U → Prop} (k : Keeps w I) :
     ∀ (n : Nat) (st st' : LState) (path : Str), I st.u → visitV2 w n st path = some st' → I st'.u := by
@@ -528,11 +552,13 @@ theorem Keeps.visitV2 {w : World} {I : U → Prop} (k : Keeps w I) :
       | some p =>
         simp only [hf] at h
         obtain ⟨a, b, c, d⟩ := package_objs st.u path
-        have h1 := k.same _ _ a b c d hinv
+        obtain ⟨pf, pv, pc⟩ := package_idx st.u path
+        have h1 := k.same _ _ a b c d pf pv pc hinv
         split at h
         · cases h; exact h1
         · obtain ⟨a2, b2, c2, d2⟩ := package_objs (st.u.package path) p.path
-          have h2 := k.same _ (((st.u.package path).package p.path).setPkg p.path (fun r => { r with name := p.name })) a2 b2 c2 d2 h1
+          obtain ⟨pf2, pv2, pc2⟩ := package_idx (st.u.package path) p.path
+          have h2 := k.same _ (((st.u.package path).package p.path).setPkg p.path (fun r => { r with name := p.name })) a2 b2 c2 d2 pf2 pv2 pc2 h1
           cases ha : Universe.addObjs w.bt w.facts w.v2 w.fuel (((st.u.package path).package p.path).setPkg p.path (fun r => { r with name := p.name })) p.scope with
           | none => simp [ha] at h
           | some u3 =>
@@ -547,7 +573,8 @@ theorem Keeps.visitV2 {w : World} {I : U → Prop} (k : Keeps w I) :
               have h4 := foldl_bind_inv (fun s i => Loader.visitV2 w n s i) (fun s => I s.u)
                 (fun s i s' hs hv => ih s s' i hs hv) p.imports st3 st4 (by subst hst3; exact h3) hfold
               obtain ⟨a5, b5, c5, d5⟩ := addImports_same st4.u p.path (p.imports.mergeSort Str.le)
-              exact k.same _ _ a5 b5 c5 d5 h4
+              obtain ⟨af, av, ac⟩ := addImports_idx st4.u p.path (p.imports.mergeSort Str.le)
+              exact k.same _ _ a5 b5 c5 d5 af av ac h4
 
 theorem Keeps.addPkgsV2 {w : World} {I : U → Prop} (k : Keeps w I) (st st' : LState) (roots : List Str)
     (hinv : I st.u) (h : addPkgsV2 w st roots = some st') : I st'.u := by
@@ -647,7 +674,7 @@ theorem addObj_ninv {bt : List Builtin} (F : Facts) (v2 : Bool) (hbt : BtKinds b
   | const => simp only [hk] at hf; exact addDecl_sn F v2 hbt fuel u _ _ _ _ u' h.1 h.2 hf
 
 theorem ninv_keeps (w : World) (hbt : BtKinds w.bt) : Keeps w (NInv w.bt w.facts w.v2) where
-  same := fun _ _ ho ht hb hd h => ⟨(inv_of_same ho ht hb hd h.1).1, same_sn ho ht hb h.2⟩
+  same := fun _ _ ho ht hb hd _ _ _ h => ⟨(inv_of_same ho ht hb hd h.1).1, same_sn ho ht hb h.2⟩
   add := fun u ob u' h hf => addObj_ninv w.facts w.v2 hbt w.fuel u ob u' h hf
 
 theorem ninv_empty (bt : List Builtin) (F : Facts) (v2 : Bool) : NInv bt F v2 {} :=
